@@ -15,6 +15,7 @@ Property theorems.  Three layers:
 import Wz.Gen.CallEngine
 import Wz.Proofs.C06_CallEngine
 import Wz.Proofs.C06_Calls
+import Wz.Gen.Cleanup
 
 namespace Wz.C06
 open Wz.Gen.ExitCodes Wz.Model.CallEngine Wz.Model.Calls
@@ -354,5 +355,32 @@ theorem interp_ceiling_exact (frames : Nat) :
     interpPushOverflows interpCallStackCeiling frames = true ↔ 2000 ≤ frames := by
   unfold interpPushOverflows interpCallStackCeiling
   exact decide_eq_true_iff
+
+
+/-! ### the context watcher of a call (WithCloseOnContextDone) ends with the call, whatever the outcome -/
+
+/-- outcome of the guarded region of a call -/
+inductive CallEnd where
+  | returned | panicked
+deriving DecidableEq, Repr
+
+/-- does the cleanup run? `deferred` = it was registered with `defer` before the region -/
+def cleanupRuns (deferred : Bool) : CallEnd → Bool
+  | .returned => true
+  | .panicked => deferred
+
+/-- With `defer` the watcher is stopped on every outcome; without it a trap, host panic, stack overflow or exit
+(all of which unwind by panicking) leaves it running - it then closes the module when the caller later cancels
+the context, although no call is in flight (the shape of a seeded change). -/
+theorem deferred_cleanup_runs_on_every_outcome :
+    (∀ e, cleanupRuns true e = true) ∧ cleanupRuns false .panicked = false := by
+  constructor
+  · intro e; cases e <;> rfl
+  · rfl
+
+/-- **Regenerated obligation**: in both engines the stop function returned by
+`CloseModuleOnCanceledOrTimeout` is deferred immediately after it is obtained. -/
+theorem context_watcher_stopped_on_every_outcome :
+    Wz.Gen.Cleanup.watchers = [("interpreter.go", "call", true), ("call_engine.go", "callWithStack", true)] := by decide
 
 end Wz.C06
